@@ -37,12 +37,15 @@ def err_into_err(ctx, args, st):
 
 @model(r'^<(?:std::result::)?Result<.*> as (?:liquid_core::)?(?:error::)?(?:result_ext::)?ResultLiquidExt<.*>>::(trace|trace_with|context_key|context_key_with)(?:::<.*>)?$')
 def res_ext(ctx, args, st):
+    if 'context_key' in ctx.callee.rsplit('>::', 1)[-1]:
+        return ret(st, Adt('Key', None, [args[0], Opaque(('context-key',))], ['builder', 'key']))
     return ret(st, args[0])
 
 
-@model(r'^(?:liquid_core::)?(?:error::)?(?:result_ext::)?Key::<.*>::(value|value_with)(?:::<.*>)?$')
+@model(r'^(?:liquid_core::)?(?:error::)?(?:result_ext::)?(?:Fn)?Key::<.*>::(value|value_with)(?:::<.*>)?$')
 def key_value(ctx, args, st):
-    return ret(st, args[0])
+    k = args[0]
+    return ret(st, k.items[0] if isinstance(k, Adt) and k.ty == 'Key' else k)
 
 
 @model(r'^<(?:std::result::)?Result<.*> as (?:liquid_core::)?(?:error::)?(?:result_ext::)?(?:ResultLiquidReplaceExt|ResultLiquidChainExt)<.*>>::(replace|replace_with|lossy_chain|lossy_chain_with|chain|chain_with)(?:::<.*>)?$')
